@@ -868,9 +868,25 @@ theorem restart_wf {U : Univ} {s s' : State} (h : WF U s) (hr : s.restart = some
     split at hr
     · cases hr
     · split_ifs at hr
-      injection hr with hr
-      subst hr
-      exact WF.orphans_subset h rfl (by intro o ho; simp at ho) rfl rfl
+      -- the reloaded state (fresh tree, no orphans) …
+      have h1 : ∀ (t : Tree), WF U { s with tree := t, orphans := [], prevOrphans := [] } := fun t =>
+        WF.orphans_subset h rfl (by intro o ho; simp at ho) rfl rfl
+      -- … to which `NewChain` applies the best block once more
+      split at hr
+      · rename_i bh _
+        generalize hs1 : ({ s with tree := _, orphans := [], prevOrphans := [] } : State) = s1 at hr
+        have w1 : WF U s1 := by rw [← hs1]; exact h1 _
+        obtain ⟨f1, f2, f3, f4, _, _, _⟩ := applyBlock_frame s1 bh
+        generalize s1.applyBlock bh = r at hr f1 f2 f3 f4
+        obtain ⟨s2, ok, sup⟩ := r
+        simp only [Option.some.injEq] at hr
+        subst hr
+        cases ok with
+        | false => exact w1
+        | true => exact w1.congr f1 f2 f3 f4
+      · injection hr with hr
+        subst hr
+        exact h1 _
   · cases hr
 
 theorem init_wf (U : Univ) (cfg : Config) (g : Header) (hg : g.height = 0) (hid : U.gid = g.id)
